@@ -21,6 +21,28 @@ import common
 
 PROP = 'C11'
 
+
+def _lake_with_fresh_tables(args, timeout=3000):
+    """common.lake, with the C11 tables re-extracted INSIDE the shared build lock.
+    Generated/Atomic.lean is re-written by the extraction step of every builder's check (from that builder's
+    repo); while several checks run concurrently the file may have been overwritten from another repo during the
+    wait for the lock.  Re-extracting under the lock makes the build see the tables of THIS run's repo."""
+    import fcntl
+    import subprocess
+    os.makedirs(os.path.join(common.LEAN, '.lake'), exist_ok=True)
+    with open(os.path.join(common.LEAN, '.lake', 'verif.lock'), 'w') as lk:
+        fcntl.flock(lk, fcntl.LOCK_EX)
+        if args and args[0] == 'build':
+            sys.path.insert(0, os.path.join(common.VERIF, 'tools'))
+            import extract
+            extract.main(common.REPO, only=['atomic'])
+        p = subprocess.run(['lake'] + args, cwd=common.LEAN, stdout=subprocess.PIPE, stderr=subprocess.STDOUT,
+                           text=True, timeout=timeout)
+    return p.returncode, p.stdout
+
+
+common.lake = _lake_with_fresh_tables
+
 BASE_NSS = ['root/a', 'root/b', 'root/c']
 QDECLS = [
     {'name': 'Key', 'ty': 'boolean', 'scopes': ['property', 'reference'], 'body': 1},
@@ -613,8 +635,172 @@ class Gen:
                 return op
         return {'op': 'addNamespace', 'ns': self.fresh('root/n'), 'reason': 'ok'}
 
+    def next_assoc_op(self, st):
+        """operations on (multi-namespace) associations, rejected for the reasons specific to them"""
+        rng = self.rng
+        for _ in range(20):
+            reason = rng.choice(['create_cross', 'create_cross', 'create_same', 'multi_noclass', 'multi_exists', 'onesided',
+                                 'delete_onesided', 'modify_onesided', 'delete_multi', 'modify_multi', 'ref_missing',
+                                 'ref_bad_ns', 'ref_host', 'ref_no_ns', 'ref_null', 'case_ns'])
+            op = self.g_assoc(st, reason)
+            if op is not None:
+                return op
+        return None
+
+    def g_assoc(self, st, reason):
+        rng = self.rng
+        n = self.pick_ns(st, nonempty=True)
+        assocs = [c for c in n['classes'] if self.is_assoc(c) and any(p['ty'] == 'reference' for p in c['props'])]
+        if reason in ('create_cross', 'create_same', 'ref_missing', 'ref_bad_ns', 'ref_host', 'ref_no_ns', 'ref_null', 'case_ns',
+                      'multi_noclass', 'multi_exists'):
+            if not assocs:
+                return None
+            c = rng.choice(assocs)
+            i = self.assoc_inst(st, n, c, cross=(reason not in ('create_same', 'case_ns')))
+            if i is None:
+                return None
+            refs = [p for p in i['props'] if p['ty'] == 'reference']
+            others = self.other_nss(n, {'props': i['props']})
+            if reason == 'create_cross' and not others:
+                return None
+            if reason == 'case_ns':
+                for p in refs:
+                    p['val']['ref']['ns'] = n['name'].upper() if rng.random() < 0.7 else p['val']['ref']['ns']
+            elif reason == 'ref_missing':
+                r = rng.choice(refs)['val']['ref']
+                r['keys'] = [[k, sval('nosuchinstance')] for k, _ in r['keys']]
+            elif reason == 'ref_bad_ns':
+                rng.choice(refs)['val']['ref']['ns'] = self.bad_ns()
+            elif reason == 'ref_host':
+                rng.choice(refs)['val']['ref']['host'] = 'h.example'
+            elif reason == 'ref_no_ns':
+                rng.choice(refs)['val']['ref']['ns'] = None
+            elif reason == 'ref_null':
+                rng.choice(refs)['val'] = None
+            elif reason == 'multi_noclass':
+                if not others or all(self.find_class(self.find_ns(st, o), c['name']) for o in others if self.find_ns(st, o)):
+                    return None
+            elif reason == 'multi_exists':
+                if not others:
+                    return None
+                on = self.find_ns(st, rng.choice(others))
+                if on is None or not self.find_class(on, c['name']):
+                    return None
+                keys = []
+                for kp in self.keyprops(c):
+                    v = [p['val'] for p in i['props'] if p['name'].lower() == kp['name'].lower()]
+                    if not v:
+                        return None
+                    keys.append([kp['name'], v[0]])
+                pre = {'op': 'addObject', 'ns': on['name'],
+                       'obj': {'k': 'inst', 'path': {'cls': c['name'], 'ns': on['name'], 'keys': keys}, 'inst': i},
+                       'reason': 'ok_onesided_assoc'}
+                return [pre, {'op': 'createInstance', 'ns': n['name'], 'inst': i, 'reason': 'multi_exists'}]
+            return {'op': 'createInstance', 'ns': n['name'], 'inst': i, 'reason': 'assoc_' + reason}
+        if reason == 'onesided':
+            return self.make_onesided(st)
+        multi = []
+        for m in st['nss']:
+            for x in m['insts']:
+                c = self.find_class(m, x['cls'])
+                if c is not None and self.is_assoc(c) and self.other_nss(m, x):
+                    multi.append((m, x))
+        one = self.onesided(st)
+        if reason in ('delete_onesided', 'modify_onesided'):
+            pool = one
+        else:
+            pool = [mx for mx in multi if not any(mx[1] is o[1] for o in one)]
+        if not pool:
+            return None
+        m, x = rng.choice(pool)
+        path = {'cls': x['path']['cls'], 'ns': None, 'keys': [[k, v] for k, v in x['path']['keys']]}
+        if reason.startswith('delete'):
+            return {'op': 'deleteInstance', 'ns': m['name'], 'path': path, 'reason': reason}
+        c = self.find_class(m, x['cls'])
+        keys = {p['name'].lower() for p in self.keyprops(c)}
+        props = []
+        for p in c['props']:
+            if p['name'].lower() in keys or p['arr']:
+                continue
+            if p['ty'] == 'uint32':
+                props.append(pv(p['name'], 'uint32', ival(rng.randint(100, 999))))
+            elif p['ty'] == 'reference' and rng.random() < 0.6:
+                r = self.ref_to(st, p['ref'], m['name'], other_ns=rng.random() < 0.5) or self.ref_to(st, p['ref'])
+                if r is not None:
+                    props.append(pv(p['name'], 'reference', r))
+        if not props:
+            return None
+        return {'op': 'modifyInstance', 'ns': m['name'], 'path': path, 'inst': {'cls': x['cls'], 'props': props},
+                'reason': reason}
+
     def bad_ns(self):
         return self.rng.choice(['root/zz', 'nope', 'root/a/b'])
+
+    # ---- multi-namespace association helpers
+    def other_nss(self, n, x):
+        """namespaces (lower) other than n referenced by the reference properties of stored instance x"""
+        out = []
+        for p in x['props']:
+            if p['ty'] == 'reference' and p['val'] is not None and 'ref' in p['val']:
+                ns = p['val']['ref']['ns']
+                if ns and ns.lower() != n['name'].lower() and ns.lower() not in out:
+                    out.append(ns.lower())
+        return out
+
+    def find_ns(self, st, name):
+        for n in st['nss']:
+            if n['name'].lower() == name.lower():
+                return n
+        return None
+
+    @staticmethod
+    def same_inst(a, b):
+        def norm(v):
+            return json.dumps(v, sort_keys=True).lower()
+        return a['path']['cls'].lower() == b['path']['cls'].lower() and \
+            sorted((k.lower(), norm(v)) for k, v in a['path']['keys']) == sorted((k.lower(), norm(v)) for k, v in b['path']['keys'])
+
+    def onesided(self, st):
+        """(namespace record, stored association instance) whose copy in another referenced namespace is missing"""
+        out = []
+        for n in st['nss']:
+            for x in n['insts']:
+                c = self.find_class(n, x['cls'])
+                if c is None or not self.is_assoc(c):
+                    continue
+                for o in self.other_nss(n, x):
+                    on = self.find_ns(st, o)
+                    if on is not None and not any(self.same_inst(x, y) for y in on['insts']):
+                        out.append((n, x))
+                        break
+        return out
+
+    def make_onesided(self, st):
+        """an add_cimobjects call that stores a cross-namespace association instance in ONE namespace only"""
+        rng = self.rng
+        for _ in range(10):
+            n = self.pick_ns(st, nonempty=True)
+            assocs = [c for c in n['classes'] if self.is_assoc(c) and any(p['ty'] == 'reference' for p in c['props'])]
+            if not assocs:
+                continue
+            c = rng.choice(assocs)
+            i = self.assoc_inst(st, n, c, cross=True)
+            if i is None:
+                continue
+            x = {'props': i['props']}
+            if not self.other_nss(n, x):
+                continue
+            keys = []
+            for kp in self.keyprops(c):
+                v = [p['val'] for p in i['props'] if p['name'].lower() == kp['name'].lower()]
+                if not v:
+                    break
+                keys.append([kp['name'], v[0]])
+            else:
+                return {'op': 'addObject', 'ns': n['name'],
+                        'obj': {'k': 'inst', 'path': {'cls': c['name'], 'ns': n['name'], 'keys': keys}, 'inst': i},
+                        'reason': 'ok_onesided_assoc'}
+        return None
 
     def g_createClass(self, st):
         rng = self.rng
@@ -803,7 +989,7 @@ class Gen:
         reason = rng.choice(['ok'] * 6 + ['ok_assoc'] * 3 + ['ok_assoc_cross'] * 4 +
                             ['bad_ns', 'noclass', 'unknown_prop', 'wrong_type', 'wrong_array', 'missing_key', 'null_key',
                              'exists', 'exists', 'ref_host', 'ref_no_ns', 'ref_bad_ns', 'ref_missing', 'ref_null',
-                             'multi_noclass', 'multi_exists', 'assoc_exists', 'assoc_missing_key'])
+                             'assoc_exists', 'assoc_missing_key'])
         i = None
         if reason in ('ok', 'bad_ns', 'unknown_prop', 'wrong_type', 'wrong_array', 'missing_key', 'null_key', 'noclass'):
             if not plain:
@@ -844,7 +1030,7 @@ class Gen:
             if not assocs:
                 return None
             c = rng.choice(assocs)
-            i = self.assoc_inst(st, n, c, cross=(reason in ('ok_assoc_cross', 'multi_noclass', 'multi_exists')))
+            i = self.assoc_inst(st, n, c, cross=(reason == 'ok_assoc_cross'))
             if i is None:
                 return None
             refs = [p for p in i['props'] if p['ty'] == 'reference']
@@ -1193,13 +1379,15 @@ class Gen:
         if reason == 'inst_noclass':
             return {'k': 'inst', 'inst': {'cls': 'TC_Nope', 'props': [pv('k', 'string', sval('v'))]}}
         if reason == 'inst_missing_key':
-            cands = [c for c in plain if any(p['name'].lower() not in {k['name'].lower() for k in self.keyprops(c)}
-                                             and p['ty'] in ('string', 'uint32') and not p['arr'] for p in c['props'])]
+            def plainprops(c):
+                keys = {k['name'].lower() for k in self.keyprops(c)}
+                return [p for p in c['props'] if p['name'].lower() not in keys and p['ty'] in ('string', 'uint32')
+                        and not p['arr'] and not any(u['name'].lower() == 'embeddedinstance' for u in p['quals'])]
+            cands = [c for c in plain if plainprops(c)]
             if not cands:
                 return None
             c = rng.choice(cands)
-            keys = {k['name'].lower() for k in self.keyprops(c)}
-            p = [p for p in c['props'] if p['name'].lower() not in keys and p['ty'] in ('string', 'uint32') and not p['arr']][0]
+            p = plainprops(c)[0]
             return {'k': 'inst', 'inst': {'cls': c['name'], 'props': [pv(p['name'], p['ty'], sval('s') if p['ty'] == 'string' else ival(1))]}}
         if reason == 'inst_unknown_prop':
             if not plain:
@@ -1274,15 +1462,22 @@ def run_history(seed, thorough, nops):
         do(op)
     for op in g.schema_ops(nss, g.schema()):
         do(op)
-    # seed instances
-    for _ in range(rng.choice([4, 6, 8])):
-        st = states[-1]
-        op = g.g_createInstance(st)
+    # seed instances: plain ones in every namespace, then associations inside and across namespaces
+    for n in list(states[-1]['nss']):
+        for c in n['classes']:
+            if not g.is_assoc(c) and g.keyprops(c) and c['super'] is None:
+                for _ in range(rng.choice([1, 2])):
+                    do({'op': 'createInstance', 'ns': n['name'], 'inst': g.inst_for(n, c), 'reason': 'ok'})
+    for _ in range(rng.choice([3, 5, 7])):
+        op = g.g_assoc(states[-1], rng.choice(['create_cross', 'create_cross', 'create_same', 'onesided']))
         if op is not None:
             do(op)
     for _ in range(nops):
-        op = g.next_op(states[-1])
-        do(op)
+        op = g.next_assoc_op(states[-1]) if rng.random() < 0.25 else g.next_op(states[-1])
+        if op is None:
+            op = g.next_op(states[-1])
+        for o in (op if isinstance(op, list) else [op]):
+            do(o)
     return {'nss': nss, 'ops': ops, 'outs': outs, 'states': states, 'viols': viols}
 
 
@@ -1317,7 +1512,15 @@ def nsprovider_probes(run):
     cwd = os.getcwd()
     os.chdir(common.REPO)
     try:
-        from tests.unittest.utils.dmtf_mof_schema_def import DMTF_TEST_SCHEMA_VER
+        # the version of the DMTF schema shipped in tests/schema (read from the source text: importing the test
+        # utilities prints a banner)
+        import ast
+        with open(os.path.join(common.REPO, 'tests', 'unittest', 'utils', 'dmtf_mof_schema_def.py')) as f:
+            tree = ast.parse(f.read())
+        DMTF_TEST_SCHEMA_VER = None
+        for node in tree.body:
+            if isinstance(node, ast.Assign) and getattr(node.targets[0], 'id', None) == 'DMTF_TEST_SCHEMA_VER':
+                DMTF_TEST_SCHEMA_VER = ast.literal_eval(node.value)
         schema = pywbem_mock.DMTFCIMSchema(DMTF_TEST_SCHEMA_VER, os.path.join(common.REPO, 'tests', 'schema'),
                                            use_experimental=False)
 
@@ -1371,13 +1574,15 @@ def nsprovider_probes(run):
                     reason='second_interop', interop_first=interop_first)
             attempt(conn, 'add_namespace', lambda: conn.add_namespace('root/p1'), reason='exists', interop_first=interop_first)
             attempt(conn, 'add_namespace', lambda: conn.add_namespace('root/p2'), reason='ok', interop_first=interop_first)
-            conn.compile_mof_string('Qualifier Foo : boolean = false, Scope(any);', namespace='root/p2')
+            conn.CreateInstance(pywbem.CIMInstance('CIM_Namespace', dict(full, Name='root/p4')), namespace='interop')
+            conn.compile_mof_string('Qualifier Foo : boolean = false, Scope(any);', namespace='root/p1')
             paths = conn.EnumerateInstanceNames('CIM_Namespace', namespace='interop')
-            for p in paths:
+            for p in paths:      # Interop namespace: refused; root/p1: not empty; root/p4: deleted
                 attempt(conn, 'DeleteInstance', lambda p=p: conn.DeleteInstance(p), reason='ns_' + p['Name'],
                         interop_first=interop_first)
             conn2 = mk(interop_first)
-            conn2.add_namespace('root/p3')
+            conn2.CreateInstance(pywbem.CIMInstance('CIM_Namespace', dict(full, Name='root/p5')), namespace='interop')
+            conn2.CreateInstance(pywbem.CIMInstance('CIM_Namespace', dict(full, Name='root/p3')), namespace='interop')
             conn2.compile_mof_string('Qualifier Foo : boolean = false, Scope(any);', namespace='root/p3')
             attempt(conn2, 'DeleteClass', lambda: conn2.DeleteClass('CIM_Namespace', namespace='interop'),
                     reason='provider_refuses', interop_first=interop_first)
